@@ -242,7 +242,7 @@ pub fn meta(_tier: Tier) -> Meta {
     Meta {
         id: "C06",
         level: "model_checking",
-        rule: "flat world with 4-block epochs and a primary epoch reward that leaves a remainder; main chain of 22 blocks and a 10-block fork from block 6, built by the forge (ckb's calculators, every block fully verified as a tip). Assignments: a transaction proposed by two different blocks inside the window of its commit, proposed only through an uncle, committed at distance 2 and at distance 4, proposed - expired - proposed again - committed, two and three commits in one block, a child spending its parent's output in the next block, blocks proposing without any commit, fees from 1 shannon-odd values up to 0.5 CKB, outputs with data and type scripts (occupied capacity). For EVERY block of EVERY chain an independent replay (plain integer arithmetic over a cell map, written from the issuance rules) must reproduce: cellbase capacity = primary(t) + g2(t)*U(t-1)/C(t-1) + sum(fee - floor(fee*4/10)) over t's commits + sum floor(fee*4/10) over commits in (t+close..t+far) whose first proposer inside their window is t, for t = n - 5 (nothing before block 6); cellbase lock = t's miner lock; DAO field (C, AR, S, U) = accumulation rule on the parent; U = occupied capacity of the live cells; live capacity + rewards and fee shares still to be paid = C - S.",
+        rule: "flat world with 4-block epochs and a primary epoch reward that leaves a remainder; main chain of 22 blocks and a 10-block fork from block 6, built by the forge (ckb's calculators, every block fully verified as a tip). Assignments: a transaction proposed by two different blocks inside the window of its commit, proposed only through an uncle, committed at distance 2 and at distance 4, proposed - expired - proposed again - committed, two and three commits in one block, a child spending its parent's output in the next block, blocks proposing without any commit, fees from 1 shannon-odd values up to 0.5 CKB, outputs with data and type scripts (occupied capacity). Assignment family: three fee-paying transactions on a 13-block chain, every assignment of (first proposing block 2..4, a second proposer 1 or 2 blocks later or none, commit distance 2..4) for two of them x three assignments of the third (quick: 4 x 4 x 1). For EVERY block of EVERY chain an independent replay (plain integer arithmetic over a cell map, written from the issuance rules) must reproduce: cellbase capacity = primary(t) + g2(t)*U(t-1)/C(t-1) + sum(fee - floor(fee*4/10)) over t's commits + sum floor(fee*4/10) over commits in (t+close..t+far) whose first proposer inside their window is t, for t = n - 5 (nothing before block 6); cellbase lock = t's miner lock; DAO field (C, AR, S, U) = accumulation rule on the parent; U = occupied capacity of the live cells; live capacity + rewards and fee shares still to be paid = C - S.",
         assumptions: &["no NervosDAO deposits / withdrawals (the world's genesis has no DAO script): the withdrawal formula is not exercised", "issuance halving and dynamic epoch lengths are C07's subject", "the genesis DAO field is the initial condition"],
         bounds: json!({"main_chain_blocks": 22, "fork_blocks": 10}),
     }
@@ -338,6 +338,55 @@ pub fn run(ctx: &Ctx) -> Report {
         report.transitions += (main.len() + fork.len()) as u64;
         report.outcomes.insert(fp(&"main"));
         report.outcomes.insert(fp(&"fork"));
+        // ---- assignment family: every (proposing block, second proposer or none, commit distance)
+        // assignment of three fee-paying transactions on a 13-block chain
+        {
+            let txs = [&t1, &t2, &t3];
+            // per tx: (first proposal block 2..=4, second proposal offset 0 (none) / 1 / 2 blocks later, commit distance 2..=4)
+            let mut opts: Vec<(u64, u64, u64)> = vec![];
+            for p in 2..=4u64 {
+                for second in 0..=2u64 {
+                    for dist in 2..=4u64 {
+                        // the second proposal must still be at least `close` before the commit to matter or not: keep all
+                        opts.push((p, second, dist));
+                    }
+                }
+            }
+            let pick: Vec<(u64, u64, u64)> = if ctx.tier.is_thorough() { opts.clone() } else { vec![(2, 0, 2), (2, 1, 4), (3, 2, 4), (4, 0, 3)] };
+            let mut n_chains = 0u64;
+            for a1 in &pick {
+                for a2 in &pick {
+                    for a3 in if ctx.tier.is_thorough() { vec![(2u64, 0u64, 2u64), (3, 1, 4), (4, 2, 3)] } else { vec![(3u64, 1u64, 4u64)] } {
+                        if ctx.out_of_time() {
+                            report.cap_hit = Some(format!("assignment family: wall budget after {n_chains} chains"));
+                            return Ok(());
+                        }
+                        let asg = [*a1, *a2, a3];
+                        let mut chain = vec![cons.genesis_block().clone()];
+                        let mut parent = cons.genesis_hash();
+                        for n in 1..=13u64 {
+                            let mut spec = BlockSpec { miner: (n % 3) as u8 + 1, ts_offset: 2, ..Default::default() };
+                            for (k, (p, second, dist)) in asg.iter().enumerate() {
+                                if n == *p || (*second > 0 && n == p + second) {
+                                    spec.proposals.push(id(txs[k]));
+                                }
+                                if n == p + dist {
+                                    spec.txs.push((*txs[k]).clone());
+                                }
+                            }
+                            let b = forge.build_on(&parent, &spec)?;
+                            parent = b.hash();
+                            chain.push(b);
+                        }
+                        forge.goto(&parent)?;
+                        n_chains += 1;
+                        replay(&cons, &chain, "assignment", &json!({"chain": "assignment", "per_tx_first_proposal_second_offset_commit_distance": asg}), &mut report);
+                        report.transitions += 13;
+                    }
+                }
+            }
+            report.count("assignment_chains", n_chains);
+        }
         report.sample(json!({"main_blocks": main.len() - 1, "fork_blocks": b.len(), "fees": [1_000_003, 2_500_007, 777_777, 50_000_001, 1_234_567, 9_999_999, 3_333_331, 1_000_001, 4_000_009]}));
         Ok(())
     };
